@@ -35,6 +35,11 @@ RULE = (
 )
 
 
+# bootstrap: the extra row lengthens every matrix product over units, so BLAS may round the last bits differently; real-valued
+# cells of the bootstrap tables are compared within 1e-9 (DESIGN 3.1) and the number of such cells is reported
+RTOL = 1e-9
+
+
 def add_rows(rng, e, kinds=None):
     e2 = copy.deepcopy(e)
     rows = e.pre.to_dict(orient="records")
@@ -51,10 +56,23 @@ def add_rows(rng, e, kinds=None):
     return e2, new
 
 
+def corpus(run, driver):
+    """minimised past failures run first"""
+    import json
+
+    for f in sorted((C.VERIF / "harness" / "corpus").glob("c11_*.json")):
+        d = json.loads(f.read_text())
+        case, caseB = A.case_from_json(d["base_case"]), A.case_from_json(d["replay_case"])
+        check_pair(run, driver, case, caseB, d["extra_rows"], case["pi_method"])
+        run.count("corpus " + d["id"])
+
+
 def explore(run, driver, budget):
     run.info["rule"] = RULE
     n = {"quick": 18, "thorough": 600, "search": 80}[budget]
     rng = run.rng
+    P.NOISE["cells"] = 0
+    corpus(run, driver)
     for i in range(n):
         pi = ["nonparametric", "gaussian", "bootstrap"][i % 3]
         case = A.gen_case(rng, pi_method=pi, roles=[r for r in E.ROLES if r != "nan-estimand"])
@@ -69,17 +87,24 @@ def explore(run, driver, budget):
         if not new:
             continue
         caseB = dict(case, election=e2)
+        check_pair(run, driver, case, caseB, new, pi)
+    run.info["bootstrap_cells_equal_within_1e-9_but_not_bitwise"] = P.NOISE["cells"]
+
+
+def check_pair(run, driver, case, caseB, new, pi):
+    e = case["election"]
+    if True:
         recs = A.run_batch(run, [case, caseB], driver, (PROP,))
         ra, rb = recs[0]["res"], recs[1]["res"]
         L = A.light(case)
         L["extra_rows"] = new
         run.count("pairs " + pi)
         if "raises" in ra:
-            continue
+            return
         if "raises" in rb:
             run.violation("adding an unexpected unit makes the run fail: " + rb["raises"], input=L, impl=rb,
                           predicate="split_add_unexpected (never fails)", signature="C11:raise", replay_case=A.case_json(caseB))
-            continue
+            return
         ta, tb = ra["tables"], rb["tables"]
         new_ids = {r["geographic_unit_fips"] for r in new}
         kf2 = pi == "bootstrap" and any(r["postal_code"] not in set(e.pre["postal_code"]) for r in new)
@@ -89,7 +114,7 @@ def explore(run, driver, budget):
         bad = None
         for name in tb:
             if name == "unit_data":
-                d = P.diff_tables(ta, tb, ignore_rows={name: lambda k: k[-1] in new_ids})
+                d = P.diff_tables(ta, tb, ignore_rows={name: lambda k: k[-1] in new_ids}, rtol=RTOL if pi == "bootstrap" else 0.0)
                 d = [x for x in d if x[0] == name]
                 if d:
                     bad = ("unit table: a row of another unit changed", d[0])
@@ -103,7 +128,7 @@ def explore(run, driver, budget):
                         break
                 if bad:
                     break
-                continue
+                return
             level = [l for l, t in A.LABEL.items() if t == name][0]
             al = A.aggregate_list(case, level)
             cls = "county_classification" in al
@@ -113,9 +138,10 @@ def explore(run, driver, budget):
                     g = unexp_geo[r["geographic_unit_fips"]]
                     key = tuple(str(g.get(k)) for k in al)
                     if any(g.get(k) is None for k in al):
-                        continue
+                        return
                     hit.setdefault(key, []).append(r)
-            d = [x for x in P.diff_tables({name: ta[name]}, {name: tb[name]}, ignore_rows={name: lambda k: k in hit})]
+            d = [x for x in P.diff_tables({name: ta[name]}, {name: tb[name]}, ignore_rows={name: lambda k: k in hit},
+                                          rtol=RTOL if pi == "bootstrap" else 0.0)]
             if d:
                 bad = (f"{name}: a group the new unit is not attributable to changed", d[0])
                 break
@@ -172,4 +198,5 @@ def replay(run, driver, payload):
     if "base_case" not in payload:
         A.run_and_check(run, A.case_from_json(payload["replay_case"]), driver, (PROP,))
         return
-    explore(run, driver, "quick")
+    case, caseB = A.case_from_json(payload["base_case"]), A.case_from_json(payload["replay_case"])
+    check_pair(run, driver, case, caseB, payload["input"]["extra_rows"], case["pi_method"])
